@@ -5,6 +5,49 @@ use crate::report::*;
 use crate::{hk, skein_hk};
 use digest::generic_array::typenum::*;
 
+/// an instance reused after reset / finalize_reset / finalize_fixed_reset behaves like a new one (per output size:
+/// anything precomputed per N, e.g. an initial-value table used only by reset, is exercised)
+fn reuse<H: HK>(rep: &mut Report) {
+    use digest::Digest;
+    let b = H::BLOCK;
+    for (first, second) in [(0usize, 1usize), (b + 3, b), (1, 2 * b + 1)] {
+        let m1 = crate::hashers::pattern(5, first);
+        let m2 = crate::hashers::pattern(6, second);
+        let want = H::ref_digest(&m2);
+        let r = guarded(|| {
+            let mut out = Vec::new();
+            let mut d = H::D::new();
+            d.update(&m1);
+            Digest::reset(&mut d);
+            d.update(&m2);
+            out.push(("reset", d.finalize().to_vec()));
+            let mut d = H::D::new();
+            d.update(&m1);
+            let _ = d.finalize_reset();
+            d.update(&m2);
+            out.push(("finalize_reset", d.finalize().to_vec()));
+            let mut d = H::D::new();
+            d.update(&m1);
+            let _ = digest::FixedOutput::finalize_fixed_reset(&mut d);
+            d.update(&m2);
+            out.push(("finalize_fixed_reset", d.finalize().to_vec()));
+            out
+        });
+        rep.evaluations += 3;
+        let replay = serde_json::json!({"engine":"E","check":"C05","hasher":H::NAME,"reuse_after":[first, second]});
+        match r {
+            Err(p) => rep.violation(&format!("c05:{}:reuse:panic:{}", H::NAME, panic_class(&p)), p, replay),
+            Ok(v) => {
+                for (what, got) in v {
+                    if got != want {
+                        rep.violation(&format!("c05:{}:reuse-after-{}:digest-mismatch", H::NAME, what), format!("an instance reused after {} ({} bytes absorbed before) gives a digest of the next {}-byte message that differs from a fresh instance / the model", what, first, second), replay.clone());
+                    }
+                }
+            }
+        }
+    }
+}
+
 macro_rules! skein_matrix {
     ($( ($m:ident, $n:ident, $nn:expr) ),*) => {
         mod kinds {
@@ -23,6 +66,9 @@ macro_rules! skein_matrix {
                 skein_one::<kinds::$m::K256>(rep, tier);
                 skein_one::<kinds::$m::K512>(rep, tier);
                 skein_one::<kinds::$m::K1024>(rep, tier);
+                reuse::<kinds::$m::K256>(rep);
+                reuse::<kinds::$m::K512>(rep);
+                reuse::<kinds::$m::K1024>(rep);
             )*
         }
     };
@@ -31,12 +77,12 @@ macro_rules! skein_matrix {
 skein_matrix!(
     (n1, U1, 1), (n2, U2, 2), (n7, U7, 7), (n8, U8, 8), (n9, U9, 9), (n16, U16, 16), (n20, U20, 20), (n28, U28, 28), (n31, U31, 31), (n32, U32, 32), (n33, U33, 33), (n48, U48, 48),
     (n63, U63, 63), (n64, U64, 64), (n65, U65, 65), (n96, U96, 96), (n127, U127, 127), (n128, U128, 128), (n129, U129, 129), (n160, U160, 160), (n255, U255, 255), (n256, U256, 256),
-    (n257, U257, 257), (n300, U300, 300), (n512, U512, 512), (n16384, U16384, 16384)
+    (n257, U257, 257), (n300, U300, 300), (n512, U512, 512), (n16384, U16384, 16384), (n65536, U65536, 65536)
 );
 
 pub fn run(tier: &str, config: &str) -> Report {
     let mut rep = Report::new("C05", tier, config);
-    rep.rule = "3 state sizes x 26 output sizes N in {1,2,7,8,9,16,20,28,31,32,33,48,63,64,65,96,127,128,129,160,255,256,257,300,512,16384} bytes (16384 = 512/256/128 output blocks: the output block counter passes one byte) x every message length 0..=4B+2 (thorough 9B+2) of counting bytes, plus every one-hot message of lengths B and B+1 for N=32 and messages of 1000, 4097, 65537, 16B, 16B+1 bytes; compared with vref::skein (UBI over the model's own Threefish, 128-bit tweak integer); distinct_nontrivial = distinct expected digests".into();
+    rep.rule = "3 state sizes x 27 output sizes N in {1,2,7,8,9,16,20,28,31,32,33,48,63,64,65,96,127,128,129,160,255,256,257,300,512,16384,65536} bytes (16384 = 512/256/128 output blocks: the output block counter passes one byte; 65536: the bit length in the configuration block passes 16 bits); for every one of these 81 types additionally a reused instance (after reset, after Digest::finalize_reset, after FixedOutput::finalize_fixed_reset) must give the digest of a fresh one x every message length 0..=4B+2 (thorough 9B+2) of counting bytes, plus every one-hot message of lengths B and B+1 for N=32 and messages of 1000, 4097, 65537, 16B, 16B+1 bytes; compared with vref::skein (UBI over the model's own Threefish, 128-bit tweak integer); distinct_nontrivial = distinct expected digests".into();
     all(&mut rep, tier);
     // one-hot messages (every message bit of a full block and of the byte after it)
     fn onehot<H: HK>(rep: &mut Report) {
